@@ -2,14 +2,14 @@
 EXTENDS RailsPipeline2, Json, IOUtils
 CONSTANTS Family, MaxIn, MaxOut, MaxTurns, Part, Parts
 
-Vecs(n, Vs) == {v \in [1..n -> Vs] : \A k \in 1..n : v[k] \in {"R", "F"} => \A q \in (k + 1)..n : v[q] = "A"}
+Vecs(n, Vs) == {v \in [1..n -> Vs] : \A k \in 1..n : v[k] \in {"R", "F", "G"} => \A q \in (k + 1)..n : v[q] = "A"}
 AllA(n) == [k \in 1..n |-> "A"]
 SeqsBetween(S, lo, hi) == UNION {[1..n -> S] : n \in lo..hi}
 NONE2 == [input |-> TRUE, dialog |-> TRUE, retrieval |-> TRUE, output |-> TRUE, set |-> FALSE]
 TurnRecR(iv, ov, rp) == [kind |-> "llm", inv |-> iv, outv |-> ov, opts |-> NONE2, sup |-> FALSE, rep |-> rp]
 TurnRec(iv, ov) == TurnRecR(iv, ov, FALSE)
 CfgRec(ni, no, sh) == [ver |-> 2, nin |-> ni, nout |-> no, dialog |-> TRUE, exc |-> FALSE, shape |-> sh]
-NF(v) == Cardinality({k \in DOMAIN v : v[k] = "F"})
+NF(v) == Cardinality({k \in DOMAIN v : v[k] \in {"F", "G"}})
 ScriptsFor(c, TurnSet, lo, hi) == {[cfg |-> c, turns |-> ts] : ts \in SeqsBetween(TurnSet, lo, hi)}
 Scripts ==
   CASE Family = "c01v2" ->
@@ -23,11 +23,11 @@ Scripts ==
                 : no \in 1..MaxOut}
     [] Family = "c03v2" ->
          UNION {{s \in ScriptsFor(CfgRec(ni, no, sh),
-                     {TurnRec(iv, ov) : iv \in Vecs(ni, {"A", "R", "F"}), ov \in Vecs(no, {"A", "R", "F"})}, 2, MaxTurns) :
+                     {TurnRec(iv, ov) : iv \in Vecs(ni, {"A", "R", "F", "G"}), ov \in Vecs(no, {"A", "R", "F", "G"})}, 2, MaxTurns) :
                    /\ \E k \in 1..Len(s.turns) : NF(s.turns[k].inv) + NF(s.turns[k].outv) > 0
                    /\ \A k \in 1..Len(s.turns) : NF(s.turns[k].inv) + NF(s.turns[k].outv) <= 1
                    /\ \A k \in 1..Len(s.turns) : (\E q \in DOMAIN s.turns[k].inv : s.turns[k].inv[q] # "A") => s.turns[k].outv = AllA(no)}
-                : ni \in 1..MaxIn, no \in 1..MaxOut, sh \in {"check", "inv"}}
+                : ni \in 1..MaxIn, no \in 1..MaxOut, sh \in {"check", "inv", "csilent"}}
 Hash(s) == (s.cfg.nin * 7 + s.cfg.nout * 3 + Len(s.turns) + (IF s.cfg.shape = "inv" THEN 5 ELSE 0)
             + (IF Len(s.turns) > 0 /\ Len(s.turns[1].outv) > 0 /\ s.turns[1].outv[1] = "A" THEN 1 ELSE 0)) % Parts
 Init == /\ script \in {s \in Scripts : Hash(s) = Part}
